@@ -1152,7 +1152,7 @@ pub fn connected_udp(spec: &crate::Spec) -> Report {
     // only histories in which the peer is away at some point add to what the other checks cover
     hists.retain(|h| h.contains(&Op::Down) && h.contains(&Op::Emit));
     let tx = UdpSocket::bind("127.0.0.1:0").unwrap();
-    for h in &hists {
+    'hist: for h in &hists {
         rep.traces += 1;
         let first = UdpSocket::bind("127.0.0.1:0").unwrap();
         first.set_read_timeout(Some(Duration::from_secs(15))).unwrap();
@@ -1201,8 +1201,9 @@ pub fn connected_udp(spec: &crate::Spec) -> Report {
                             }
                         }
                         let Some(s) = s else {
-                            rep.errors.push(format!("cannot bind {} again", addr));
-                            return rep;
+                            // somebody else got the port in the meantime: no verdict for this history
+                            rep.flag("port-taken-history-skipped");
+                            continue 'hist;
                         };
                         s.set_read_timeout(Some(Duration::from_secs(15))).unwrap();
                         peer = Some(Rx::Udp(s, tx.try_clone().unwrap()));
